@@ -96,6 +96,7 @@ func diffLayouts(got, want []string) string {
 
 func runC01(c *Ctx) {
 	r := c.R
+	defer rulePeekLifetime(c, "R1.7", "C01: the frame read back must carry the id and payload that were written")
 	r.NotDecided = append(r.NotDecided,
 		"field-for-field equality of Read(Write(f)) as an observed behaviour over all values (the layout agreement of writer and reader with the spec table is what is decided)",
 		"payloads longer than 255 bytes (outside the statement)")
